@@ -69,14 +69,12 @@ def nice_witness(ob):
         r = smt.prove(ob.hyps + extra, ob.goal, timeout_ms=5000)
         if r.status == "sat" and r.model is not None:
             return r.model
-    return ob.result.model
+    return ob.result.model or getattr(ob.result, "candidate_model", None)
 
 
 def triage_python(run, rep):
-    for ob in rep.obligations:
-        if ob.result.status != "sat":
-            continue
-        model = nice_witness(ob)
+    for ob, model0, definitive in driver.refuted(run, rep):
+        model = nice_witness(ob) or model0
         vals = driver.model_values(model, ["t0", "t1", "max_dt_sec"])
         t0, t1, mx = vals.get("t0"), vals.get("t1"), vals.get("max_dt_sec")
         payload = {"language": "python", "function": rep.key, "solver": ob.result.backend, "solver_result": "sat", "counter_model": smt.model_to_dict(model), "inputs": vals}
@@ -91,7 +89,7 @@ def triage_python(run, rep):
             confirmed = not ok
             what = f"python _process_model from t={t0} to t={t1} with max_dt_sec={mx}: {why} (steps {steps[:6]}{'...' if len(steps) > 6 else ''})"
         kind = "helper" if ".helper." in ob.name else "property"
-        if kind == "helper" and not confirmed:
+        if (kind == "helper" or not definitive) and not confirmed:
             run.undecided.append(ob.name)
             continue
         run.findings.append(Finding(ob.name, sig, what, payload, confirmed, theory=ob.theory, clause_kind=kind))
